@@ -52,6 +52,15 @@ def chain(model):
     #   V = V.replace(a, b, K)           the first K occurrences (K a literal)
     #   h, f, t = V.partition(a) ; if f: V = h + b + t      the first occurrence
     body = [s for s in lp.body if not isinstance(s, ast.Pass)]
+    # `if a in V: V = V.replace(a, ...)` is the bare replace: without an occurrence replace returns V unchanged
+    if (len(body) == 1 and isinstance(body[0], ast.If) and not body[0].orelse and len(body[0].body) == 1 and isinstance(body[0].body[0], ast.Assign)
+            and isinstance(body[0].test, ast.Compare) and len(body[0].test.ops) == 1 and isinstance(body[0].test.ops[0], ast.In)
+            and isinstance(body[0].test.left, ast.Name) and isinstance(body[0].test.comparators[0], ast.Name)):
+        g, inner = body[0], body[0].body[0]
+        c = inner.value
+        if (isinstance(c, ast.Call) and isinstance(c.func, ast.Attribute) and c.func.attr == "replace" and isinstance(c.func.value, ast.Name)
+                and c.func.value.id == g.test.comparators[0].id and c.args and isinstance(c.args[0], ast.Name) and c.args[0].id == g.test.left.id):
+            body = [inner]
     count = None
     if len(body) == 1 and isinstance(body[0], ast.Assign) and len(body[0].targets) == 1 and isinstance(body[0].targets[0], ast.Name):
         v = body[0].targets[0].id
